@@ -12,6 +12,19 @@
 
 using namespace xv;
 
+// interposed: the harness objects resolve __assert_fail here (the explorer is linked with -rdynamic)
+extern "C" void __assert_fail(const char* assertion, const char* file, unsigned int line, const char* function)
+{
+    AssertTrap& T = assert_trap();
+    if (T.armed)
+    {
+        snprintf(T.msg, sizeof T.msg, "%s (%s:%u)", assertion, file, line);
+        siglongjmp(T.env, (strstr(assertion, "unsupported arch/op combination") || strstr(assertion, "not implemented yet")) ? 1 : 2);
+    }
+    fprintf(stderr, "%s:%u: %s: Assertion `%s' failed.\n", file, line, function, assertion);
+    abort();
+}
+
 static std::vector<std::string> split(const std::string& s, char c)
 {
     std::vector<std::string> o;
@@ -85,6 +98,8 @@ int main(int argc, char** argv)
             placement = true;
         else if (a == "--props")
             props = split(next(), ',');
+        else if (a == "--perm-tables")
+            load_perm_tables(next());
         else if (a == "--op")
             replay_op = next();
         else if (a == "--type")
